@@ -1,6 +1,8 @@
 import KV.Proofs.TrieMap
 import KV.Proofs.TrieCanon
 import KV.Proofs.TrieCanonDel
+import KV.Proofs.TrieProofSound
+import KV.Proofs.TrieProofComplete
 /-!
 # C07 — the Merkle Patricia trie is an authenticated map with a canonical root
 
@@ -22,9 +24,12 @@ Proved here, for all keys / values / op sequences, no size bound:
    after any op sequence the node structure and the root hash (for every `H`) are functions of
    the content alone (`canonical`, `root_order_independent`; first stage `canonical_partial`).
 
-Stated but not proved (kept as `def …Statement : Prop`): 4. soundness of proof verification
-(`ProofSoundStatement`).  For it the check relies on the differential/oracle harness
-(`harness/overlay/trie/c07_test.go`).
+4. proofs: `proof_sound` — for every `H` with 32-byte outputs and `H [0x80] = EmptyRootHash`, every
+   reachable trie (node payloads < 2^64 bytes), key and list of blobs: a `val v` / `absent` verdict
+   of `verifyProof` against the trie's root is what `get` returns, or two different byte strings
+   with the same hash are exhibited; `proof_complete` — the output of `prove` verifies to `get`.
+   Ingredients: node codec round trip `decodeNode_enc` (on top of C16's RLP lemmas), the walk
+   lemma `walk`, `verifyLoop_sound`, `verifyLoop_complete` (`KV/Proofs/TrieProof*.lean`).
 -/
 namespace KV.Trie
 open KV
@@ -441,17 +446,206 @@ example : ∃ t1 t2,
   by_cases e1 : k = [0x12] <;> by_cases e2 : k = [0x12, 0x34] <;> by_cases e3 : k = [0x15] <;>
     simp_all
 
-/-! ## 4. proof soundness (stated, not proved) -/
+/-! ## 4. proof soundness -/
 
-/-- PROOF SOUNDNESS (statement): a proof that verifies against the root of a reachable trie yields
-the stored value / absence, or exhibits a collision of `H`.  Not proved; the harness checks that
-genuine proofs verify to the stored value and that mutated proofs never verify to another value,
-and the model's `verifyProof` is compared with `VerifyProof` on genuine and tampered proofs. -/
+/-- the abstract map never holds an empty value -/
+theorem absRun_ne_empty (ops : List Op) : ∀ (m : Bytes → Option Bytes), (∀ k, m k ≠ some []) →
+    ∀ k, absRun m ops k ≠ some [] := by
+  induction ops with
+  | nil => intro m hm k; exact hm k
+  | cons op ops ih =>
+    intro m hm k
+    simp only [absRun, List.foldl]
+    apply ih
+    intro k'
+    cases op with
+    | put k0 v =>
+      simp only [absOp, stored]
+      by_cases e : k' = k0
+      · by_cases hv : v = [] <;> simp [e, hv]
+      · simp [e, hm k']
+    | del k0 =>
+      simp only [absOp]
+      by_cases e : k' = k0
+      · simp [e]
+      · simp [e, hm k']
+
+/-- in a reachable trie no valid key maps to the empty value (writing an empty value deletes) -/
+theorem reachable_noEmpty (t : Node) (h : Reachable t) : NoEmpty t := by
+  rcases h with ⟨ops, h⟩
+  intro hk hv hg
+  by_cases him : ∃ b, hk = keybytesToHex b
+  · rcases him with ⟨b, rfl⟩
+    rcases run_refines ops with ⟨t', e1, _, g1⟩
+    rw [h] at e1; cases e1
+    rw [g1 b] at hg
+    simp only [Option.some.injEq] at hg
+    exact absRun_ne_empty ops (fun _ => none) (by simp) b hg
+  · have hni : ∀ b, hk ≠ keybytesToHex b := fun b e => him ⟨b, e⟩
+    rw [run_get_nonimage ops .nil t trivial (fun _ _ _ => by simp [get]) h hk hv hni] at hg
+    simp at hg
+
+/-- PROOF SOUNDNESS (statement).  `H` is any function with 32-byte outputs whose value on the RLP
+empty string is the constant `types.EmptyRootHash` the code uses for the empty trie (both hold for
+Keccak-256; without the first, `decodeRef` would read a hash reference of another length as an
+error or as "no child"; without the second nothing ties the constant to `H`).  `EncOK H t`: every
+node payload is shorter than 2^64 bytes, the limit of `lib/rlp` (C16).  The proof database is
+`{H blob ↦ blob}` for the given blobs, as a receiver builds it.  Then for every reachable trie, key
+and list of blobs — genuine, tampered, reordered, from another trie —: a `val v` verdict means the
+trie stores exactly `v` under the key, an `absent` verdict means the key is absent, unless two
+different byte strings with the same hash are exhibited (a blob of the proof and the genuine
+encoding of the trie node it stands for). -/
 def ProofSoundStatement : Prop :=
-  ∀ (H : Bytes → Bytes) (t : Node) (k : Bytes) (proof : List Bytes), Reachable t →
+  ∀ (H : Bytes → Bytes), (∀ x, (H x).length = 32) → H [0x80] = emptyRoot →
+  ∀ (t : Node) (k : Bytes) (proof : List Bytes), Reachable t → EncOK H t →
     (∀ v, verifyProof H (rootHash H t) (keybytesToHex k) proof = .val v →
-        get t (keybytesToHex k) = some (stored v) ∨ ∃ a b, a ≠ b ∧ H a = H b) ∧
+        (get t (keybytesToHex k) = some (some v) ∧ v ≠ []) ∨ ∃ a b, a ≠ b ∧ H a = H b) ∧
     (verifyProof H (rootHash H t) (keybytesToHex k) proof = .absent →
         get t (keybytesToHex k) = some none ∨ ∃ a b, a ≠ b ∧ H a = H b)
+
+theorem decodeNode_emptyString (fuel : Nat) : decodeNode fuel [0x80] = none := by
+  cases fuel with
+  | zero => rfl
+  | succ f =>
+    have : KV.Rlp.rawSplit [0x80] = some (1, [], []) := by decide
+    simp [decodeNode, splitList, this]
+
+/-- PROOF SOUNDNESS, proved in collision-extraction form -/
+theorem proof_sound : ProofSoundStatement := by
+  intro H hlen hE t k proof hreach hok
+  have hne := reachable_noEmpty t hreach
+  have hk := keybytesToHex_vkey k
+  have hcan : t = .nil ∨ Canon t := by
+    rcases hreach with ⟨ops, h⟩
+    exact run_canon ops .nil t (Or.inl rfl) h
+  rcases hcan with rfl | hcan
+  · -- the empty trie: its root is the constant, tied to `H` by `hE`
+    have key : ∀ r, verifyProof H (rootHash H .nil) (keybytesToHex k) proof = r →
+        r = .err ∨ ∃ a b, a ≠ b ∧ H a = H b := by
+      intro r hr
+      simp only [verifyProof, rootHash, verifyLoop] at hr
+      cases hl : lookup H proof emptyRoot with
+      | none => rw [hl] at hr; exact Or.inl hr.symm
+      | some buf =>
+        obtain ⟨hh, _⟩ := lookup_hash hl
+        by_cases hb : buf = [0x80]
+        · subst hb
+          rw [hl] at hr
+          simp only [decodeNode_emptyString] at hr
+          exact Or.inl hr.symm
+        · exact Or.inr ⟨buf, [0x80], hb, by rw [hh, hE]⟩
+    refine ⟨?_, ?_⟩
+    · intro v hv
+      rcases key _ hv with e | c
+      · cases e
+      · exact Or.inr c
+    · intro _; exact Or.inl (by simp [get])
+  · have hroot : rootHash H t = H (KV.Rlp.enc (item H t)) := by
+      cases t with
+      | nil => exact absurd hcan (by simp [Canon])
+      | value v => exact absurd hcan (by simp [Canon])
+      | hash h => exact absurd hcan (by simp [Canon])
+      | short _ _ => rfl
+      | full _ => rfl
+    have hs := verifyLoop_sound H hlen proof (proof.length + 1) t (keybytesToHex k) hcan hne hok hk
+    unfold verifyProof
+    rw [hroot]
+    refine ⟨?_, hs.2⟩
+    intro v hv
+    rcases hs.1 v hv with hg | c
+    · refine Or.inl ⟨hg, ?_⟩
+      intro e; subst e
+      exact hne _ hk hg
+    · exact Or.inr c
+
+/-- the same in the form of the property text: with the stored-value convention of the abstract
+map (`stored`), for a concrete op sequence -/
+theorem proof_sound_run (H : Bytes → Bytes) (hlen : ∀ x, (H x).length = 32)
+    (hE : H [0x80] = emptyRoot) (ops : List Op) (t : Node) (hrun : run .nil ops = some t)
+    (hok : EncOK H t) (k : Bytes) (proof : List Bytes) :
+    (∀ v, verifyProof H (rootHash H t) (keybytesToHex k) proof = .val v →
+        absRun (fun _ => none) ops k = some v ∨ ∃ a b, a ≠ b ∧ H a = H b) ∧
+    (verifyProof H (rootHash H t) (keybytesToHex k) proof = .absent →
+        absRun (fun _ => none) ops k = none ∨ ∃ a b, a ≠ b ∧ H a = H b) := by
+  have hs := proof_sound H hlen hE t k proof ⟨ops, hrun⟩ hok
+  rcases run_refines ops with ⟨t', e1, _, g1⟩
+  rw [hrun] at e1; cases e1
+  refine ⟨?_, ?_⟩
+  · intro v hv
+    rcases hs.1 v hv with ⟨hg, _⟩ | c
+    · rw [g1 k] at hg; simp only [Option.some.injEq] at hg; exact Or.inl hg
+    · exact Or.inr c
+  · intro hv
+    rcases hs.2 hv with hg | c
+    · rw [g1 k] at hg; simp only [Option.some.injEq] at hg; exact Or.inl hg
+    · exact Or.inr c
+
+/-- PROOF COMPLETENESS: for every non-empty reachable trie and every key, `prove` (the model of
+`Trie.Prove`) does not fail, and the blobs it emits verify against the root to exactly what `get`
+returns — the stored value or absence — unless the emitted blobs themselves contain two different
+byte strings with the same hash.  (For the empty trie `Prove` emits nothing and `VerifyProof`
+reports an error, in the model as in the code.) -/
+theorem proof_complete (H : Bytes → Bytes) (hlen : ∀ x, (H x).length = 32) (t : Node)
+    (hreach : Reachable t) (hnil : t ≠ .nil) (hok : EncOK H t) (k : Bytes) :
+    ∃ blobs, prove H t (keybytesToHex k) = some blobs ∧
+      (verifyProof H (rootHash H t) (keybytesToHex k) blobs = verdictOf (get t (keybytesToHex k)) ∨
+        ∃ a b, a ≠ b ∧ H a = H b) := by
+  have hne := reachable_noEmpty t hreach
+  have hk := keybytesToHex_vkey k
+  have hcan : Canon t := by
+    rcases hreach with ⟨ops, h⟩
+    rcases run_canon ops .nil t (Or.inl rfl) h with e | c
+    · exact absurd e hnil
+    · exact c
+  have hroot : rootHash H t = H (KV.Rlp.enc (item H t)) := by
+    cases t with
+    | nil => exact absurd rfl hnil
+    | value v => exact absurd hcan (by simp [Canon])
+    | hash h => exact absurd hcan (by simp [Canon])
+    | short _ _ => rfl
+    | full _ => rfl
+  refine ⟨_, prove_eq H t hcan _ hk, ?_⟩
+  unfold verifyProof
+  rw [hroot]
+  exact verifyLoop_complete H hlen _ _ t _ hcan hne hok hk (by simp)
+    (fun b hb => by simp [hb]) (by simp; omega)
+
+/-- completeness in terms of the abstract content of an op sequence -/
+theorem proof_complete_run (H : Bytes → Bytes) (hlen : ∀ x, (H x).length = 32) (ops : List Op)
+    (t : Node) (hrun : run .nil ops = some t) (hnil : t ≠ .nil) (hok : EncOK H t) (k : Bytes) :
+    ∃ blobs, prove H t (keybytesToHex k) = some blobs ∧
+      (verifyProof H (rootHash H t) (keybytesToHex k) blobs =
+          (match absRun (fun _ => none) ops k with
+            | some v => VRes.val v
+            | none => VRes.absent) ∨
+        ∃ a b, a ≠ b ∧ H a = H b) := by
+  obtain ⟨blobs, h1, h2⟩ := proof_complete H hlen t ⟨ops, hrun⟩ hnil hok k
+  rcases run_refines ops with ⟨t', e1, _, g1⟩
+  rw [hrun] at e1; cases e1
+  refine ⟨blobs, h1, ?_⟩
+  rw [g1 k] at h2
+  cases h : absRun (fun _ => none) ops k <;> simpa [h, verdictOf] using h2
+
+/-! ### non-vacuity of the hypotheses on `H` -/
+
+/-- a (cryptographically worthless) function that satisfies the two hypotheses on `H` -/
+def toyHash (b : Bytes) : Bytes :=
+  if b = [0x80] then emptyRoot else (b ++ List.replicate 32 0).take 32
+
+example : ∀ x, (toyHash x).length = 32 := by
+  intro x
+  unfold toyHash
+  by_cases h : x = [0x80]
+  · simp [h]; decide
+  · simp [h]
+
+example : toyHash [0x80] = emptyRoot := by simp [toyHash]
+
+/-- `EncOK` holds for a concrete reachable trie (a single leaf) -/
+example : EncOK toyHash (.short [1, 2, 16] (.value [7])) := by
+  refine ⟨?_, trivial⟩
+  rw [item_short]
+  simp only [KV.Rlp.Item.ok, KV.Rlp.Items.ok, refItem, item, KV.Rlp.encs]
+  refine ⟨⟨by decide, by decide, trivial⟩, by decide⟩
 
 end KV.Trie
